@@ -138,3 +138,5 @@ pub trait Handle<GG, M> {
 }
 /// reveals a ghost natural number to the environment (same role as `ghost_test`)
 #[verifier::external_body] pub fn ghost_reveal(n: Ghost<nat>) -> (r: usize) ensures r == n@ { unimplemented!() }
+/// R4f: marks one atomic read-modify-write step (the inlined closure of `fetch_update`)
+pub fn atomic<X>(x: X) -> (r: X) ensures r == x { x }
